@@ -58,13 +58,59 @@ def _worker_init(prop_id):
         _MOD.worker_init()
 
 
+SRC_UNDER_TEST = os.path.realpath(os.environ.get("VERIF_REPO_SRC", "/repo/src"))
+
+
+def raised_by_library(exc):
+    """True iff the exception escaped from the code under test: walking the traceback from the raise point outwards,
+    a frame of the source tree under test is met before any frame of the harness (frames of third-party packages the
+    library calls into are skipped).  Every case the checks build is in-domain, so such an exception is a violation of
+    the property being checked, not an error of the machinery (DESIGN section 7)."""
+    for fr in reversed(traceback.extract_tb(exc.__traceback__)):
+        f = os.path.realpath(fr.filename)
+        if f.startswith(SRC_UNDER_TEST + os.sep):
+            return True
+        if f.startswith(VERIF + os.sep):
+            return False
+    return False
+
+
+def shard_exception_violation(prop_id, shard, tier, seed, exc):
+    import base64
+    import pickle
+    return {"property": prop_id, "subcheck": "exception",
+            "case": {"shard_exception": True, "slice": shard.get("slice"), "tier": tier, "seed": seed,
+                     "shard_pickle_b64": base64.b64encode(pickle.dumps(shard)).decode()},
+            "detail": f"{type(exc).__name__}: {exc} escaped from the code under test while exploring shard "
+                      f"{str({k: v for k, v in shard.items() if k != 'menu'})[:300]}\n" + traceback.format_exc(limit=-6)}
+
+
+def replay_shard_exception(mod, viol):
+    import base64
+    import pickle
+    c = viol["case"]
+    shard = pickle.loads(base64.b64decode(c["shard_pickle_b64"]))
+    try:
+        mod.run_shard(shard, c.get("tier", "quick"), c.get("seed", 0))
+    except Exception as exc:
+        if raised_by_library(exc):
+            return {"violated": True, "detail": f"exception: {type(exc).__name__}: {exc} escaped from the code under test"}
+        raise
+    return {"violated": False, "detail": None}
+
+
 def _worker_run(arg):
     idx, shard, tier, seed = arg
     try:
         res = _MOD.run_shard(shard, tier, seed)
         res["_idx"] = idx
         return res
-    except Exception:  # harness failure -> internal error
+    except Exception as exc:
+        if raised_by_library(exc):
+            v = shard_exception_violation(_MOD.__name__.rsplit(".", 1)[1].upper(), shard, tier, seed, exc)
+            return {"_idx": idx, "_aborted": True, "evaluations": 0, "nontrivial": 0, "samples": [], "violations": [v],
+                    "violations_total": 1}
+        # harness failure -> internal error
         return {"_idx": idx, "_internal_error": traceback.format_exc(), "shard": shard}
 
 
@@ -108,8 +154,13 @@ def basic_evidence_check(ev):
 def confirm(mod, viol):
     """Re-execute a reported case on freshly built objects; True if it fails again."""
     try:
+        if (viol.get("case") or {}).get("shard_exception"):
+            return replay_shard_exception(mod, viol)
         res = mod.replay(viol)
-    except Exception:
+    except Exception as exc:
+        if raised_by_library(exc):
+            return {"violated": True, "detail": f"exception: {type(exc).__name__}: {exc} escaped from the code under test\n"
+                                                + traceback.format_exc(limit=-5)}
         raise InternalError("replay crashed:\n" + traceback.format_exc())
     return res
 
@@ -175,7 +226,8 @@ def run(prop_id, tier, seed, procs, budget=None, only_slice=None):
                 break
             sh = plan[res["_idx"]]
             s = slices[sh["slice"]]
-            s["done"] += 1
+            if not res.get("_aborted"):
+                s["done"] += 1
             ndone = sum(x["done"] for x in slices.values())
             if time.time() - last_progress > 60:
                 last_progress = time.time()
@@ -233,7 +285,7 @@ def run(prop_id, tier, seed, procs, budget=None, only_slice=None):
         if "case" not in f:
             continue
         try:
-            res = mod.replay({"property": prop_id, "subcheck": f.get("subcheck"), "case": f["case"]})
+            res = confirm(mod, {"property": prop_id, "subcheck": f.get("subcheck"), "case": f["case"]})
         except Exception:
             sys.stderr.write("replay of finding %s crashed:\n%s\n" % (f.get("id"), traceback.format_exc()))
             return 2
@@ -338,7 +390,7 @@ def do_replay(prop_id, path):
         mod.worker_init()
     with open(path) as fh:
         viol = json.load(fh)
-    res = mod.replay(viol)
+    res = confirm(mod, viol)
     if res.get("violated"):
         print(f"VIOLATION property={prop_id} replay={path}")
         print("  detail=" + str(res.get("detail"))[:2000])
